@@ -15,7 +15,10 @@ from vlib import enc_str
 from props import runner_gen as G
 
 THEOREMS = ["C03_labels", "C03_labels_none", "C03_step", "C03_refines", "C03_complete", "C03_spec_det",
-            "C03_error_position", "C03_continue_output", "C03_error_reported", "C03_nonvacuous"]
+            "C03_error_position", "C03_continue_output", "C03_error_reported", "C03_nonvacuous",
+            # the runner WITH argument binding (RunnerBind.v): same theorems, simulation by Runner.v, C02 composition
+            "C03_step_bound", "C03_refines_bound", "C03_complete_bound", "C03_spec_det_bound", "C03_bound_conservative",
+            "C03_bound_sim", "C03_bound_receives", "C03_bound_nonvacuous"]
 FUEL = 400
 SCRATCH = os.path.join(vlib.ROOT, ".cache", "c03")
 
@@ -76,10 +79,12 @@ def exhaustive(thorough):
     return out
 
 
-def shrink(ck, lines, cmds, vars_, src):
+def shrink(ck, lines, cmds, vars_, src, kind="P", render=None):
     """greedy: drop lines / trailing results while model and implementation still disagree"""
+    render = render or G.render
+
     def cases(cands):
-        return [G.case_line("P", src, None, FUEL, l, c, vars_, G.render(l)) for (l, c) in cands]
+        return [G.case_line(kind, src, None, FUEL, l, c, vars_, render(l)) for (l, c) in cands]
 
     cur = (lines, cmds)
     for _ in range(40):
@@ -108,6 +113,95 @@ def shrink(ck, lines, cmds, vars_, src):
             break
         cur = nxt
     return cur
+
+
+# ---- the bound stream: arguments with ${x} / %{x} / \${x} templates over variables the commands set ---------------
+B_NAMES = ["x", "y", "z", "keep", "nope"]
+B_LITS = ["a", "b1", "p q", "é", "-", "{", "}", "7", "#h", "=", "\"q", ":", "a:b", " "]
+B_VALUES = G.VALUES + ["${y}", "%{y}", "\\${y}", "a \"b c\"", "a \"b", "#h x", "\\", "p  q ", " ", "é ü", "a\tb", "x=y", "}", "$", "%"]
+B_MSGS = G.MSGS + ["${x}", "%{y} z", "\\${x}", "m ${nope}"]
+
+
+def b_render_arg(a):
+    """always a text the parser reads back as exactly `a` (checked by the harness on every case)"""
+    if a != "" and all(c.isalnum() or c in "${}%._-:" for c in a) and not a.startswith(":"):
+        return a
+    return '"' + a.replace("\\", "\\\\").replace('"', '\\"').replace("\n", "\\n").replace("\r", "\\r").replace("\t", "\\t") + '"'
+
+
+def b_render(lines, blanks=None, sp=" "):
+    out = []
+    for k, l in enumerate(lines):
+        if l is None:
+            out.append((blanks or {}).get(k, ""))
+            continue
+        parts = []
+        if l.get("label"):
+            parts.append(l["label"])
+        if l.get("out") is not None:
+            parts += [l["out"], "="]
+        if l.get("cmd") is not None:
+            parts.append(l["cmd"])
+            parts += [b_render_arg(a) for a in (l.get("args") or [])]
+        out.append(sp.join(parts))
+    return "\n".join(out) + ("\n" if out else "")
+
+
+def b_piece(rng):
+    r = rng.random()
+    if r < 0.35:
+        return rng.choice(B_LITS)
+    if r < 0.80:
+        return "${%s}" % rng.choice(B_NAMES)
+    return "\\${%s}" % rng.choice(B_NAMES)
+
+
+def b_arg(rng):
+    """a written argument inside C02's domain: a template of 0-4 pieces, or a whole-argument %{name}"""
+    if rng.random() < 0.2:
+        return "%%{%s}" % rng.choice(B_NAMES)
+    return "".join(b_piece(rng) for _ in range(rng.choice([1, 1, 2, 2, 3, 4, 0])))
+
+
+def b_result(rng, r):
+    if r[0] == "!":
+        return ("!", b_result(rng, r[1]))
+    if r[0] in ("C", "L", "J", "X") and r[0] != "X" and rng.random() < 0.6:
+        return (r[0], rng.choice(B_VALUES)) + tuple(r[2:])
+    if r[0] == "E" and rng.random() < 0.4:
+        return ("E", rng.choice(B_MSGS))
+    return r
+
+
+def b_program(rng):
+    lines, cmds, vars_, blanks, sp = G.rand_program(rng, max_lines=10)
+    for l in lines:
+        if l and l.get("cmd") is not None:
+            l["args"] = [b_arg(rng) for _ in range(rng.choice([0, 1, 1, 2, 2, 3]))]
+            if rng.random() < 0.7:
+                l["out"] = rng.choice(G.OUTS)
+    cmds = {n: (cyc, [b_result(rng, r) for r in rs]) for n, (cyc, rs) in cmds.items()}
+    if rng.random() < 0.5:
+        vars_ = {v: rng.choice(B_VALUES[1:]) for v in rng.sample(B_NAMES[:4], rng.randint(1, 3))}
+    return lines, cmds, vars_, blanks, sp
+
+
+def b_exhaustive():
+    """line 1 `x = c0` (c0 answers every value of the pool), line 2 `[y =] c1 <arg>` for every template of <= 2 pieces
+    over 5 pieces and the spread of x, c1 continuing or failing with a template-like message under an on_error handler"""
+    pieces = ["a", "p q", "${x}", "${nope}", "\\${x}"]
+    args = [""] + pieces + [a + b for a in pieces for b in pieces] + ["%{x}", "%{nope}"]
+    out = []
+    for v in B_VALUES:
+        for a in args:
+            l = [{"out": "x", "cmd": "c0"}, {"out": "y", "cmd": "c1", "args": [a, "k"]}]
+            out.append((l, {"c0": (False, [("C", v)]), "c1": (False, [("C", "r")])}))
+        for a in args[:8]:
+            l = [{"out": "x", "cmd": "c0"}, {"cmd": "c1", "args": [a]}, {"cmd": "c1", "args": ["${x}", a]}]
+            out.append((l, {"c0": (False, [("C", v)]), "c1": (True, [("E", "${x} " + (v or ""))]),
+                            G.ON_ERROR: (True, [("C", None)])}))
+    return out
+
 
 
 def replay(ck, data):
@@ -221,8 +315,71 @@ def run(ck):
                         "original_case": {"script": G.render(p[0], p[3], p[4]), "model": m_out[k], "implementation": i_out[k]},
                         "wire": scase, "theorems": ["C03_step", "C03_refines", "C03_complete"], "seed": ck.seed,
                         "replay_cmd": "printf '%s\\n' | .cache/cargo-target/release/c03   (and | ocaml/bin/c03_model)" % scase.replace("\t", "\\t")})
+        # ---- bound stream ---------------------------------------------------------------------------------------
+        import time
+        t_b0 = time.time()
+        bprogs = [(l, c, {}, {}, " ", None) for (l, c) in b_exhaustive()]
+        n_bexh = len(bprogs)
+        for k in range(40000 if thorough else 4000):
+            lines, cmds, vars_, blanks, sp = b_program(rng)
+            src = os.path.join(SCRATCH, "b%d.ds" % k) if rng.random() < 0.2 else None
+            bprogs.append((lines, cmds, vars_, blanks, sp, src))
+        b_lines = [G.case_line("B", p[5], None, FUEL, p[0], p[1], p[2], b_render(p[0], p[3], p[4])) for p in bprogs]
+        bm = ck.model(b_lines)
+        bsend = [k for k, m in enumerate(bm) if not m.startswith("FUEL") and m != "BADLINE"]
+        bi = dict(zip(bsend, ck.impl([b_lines[k] for k in bsend])))
+        bstats = {"programs": len(bsend), "exhaustive_part": n_bexh, "not_sent_out_of_fuel": len(b_lines) - len(bsend),
+                  "invocations": 0, "invocations_with_changed_arguments": 0, "argument_count_changed": 0,
+                  "on_error_invoked": 0, "model_outcome": {}, "render_mismatch": 0}
+        bnontriv = set()
+        for k in bsend:
+            p = bprogs[k]
+            m = bm[k].split("\t")
+            i = bi[k].split("\t")
+            if i[0] == "RENDER-MISMATCH":
+                # the generator wrote a text that does not parse back to the intended instructions: a bug of this check
+                bstats["render_mismatch"] += 1
+                ck.broken.append("c03 bound stream: renderer mismatch on %r (%s)" % (b_render(p[0], p[3], p[4]), bi[k]))
+                continue
+            key = m[0] + (":" + m[1].split(" ")[0] if len(m) > 1 else "")
+            bstats["model_outcome"][key] = bstats["model_outcome"].get(key, 0) + 1
+            if len(m) == 6 and m[4] != "-":
+                written = [l.get("args") or [] for l in p[0] if l and l.get("cmd") is not None]
+                flat = set(vlib.enc_list(a) for a in written)
+                for call in m[4].split(";"):
+                    cf = call.split("|")
+                    bstats["invocations"] += 1
+                    if cf[0] == enc_str(G.ON_ERROR) and cf[2] == "N" and cf[3] == "0":
+                        bstats["on_error_invoked"] += 1
+                    elif cf[1] not in flat:
+                        bstats["invocations_with_changed_arguments"] += 1
+                        bnontriv.add("\t".join(b_lines[k].split("\t")[4:7]))
+                        if not any(len(vlib.dec_list(cf[1])) == len(a) for a in written):
+                            bstats["argument_count_changed"] += 1
+            if not G.agree(m, i, p[1]):
+                found = True
+                if len(ck.violations) < 5:
+                    sl, sc = shrink(ck, p[0], p[1], p[2], p[5], kind="B", render=b_render)
+                    scase = G.case_line("B", p[5], None, FUEL, sl, sc, p[2], b_render(sl))
+                    sm, si = ck.model([scase])[0], ck.impl([scase])[0]
+                    ck.violation({
+                        "kind": "runner with argument binding: abstract machine (extracted RunnerBind model, C03_step_bound) vs implementation",
+                        "script": b_render(sl), "commands": {n: {"cyclic": c, "results": [list(map(str, r)) for r in rs]} for n, (c, rs) in sc.items()},
+                        "initial_variables": p[2], "source_file": p[5],
+                        "model": sm, "implementation": si,
+                        "fields": "status, detail, line, source, invocation log (name|BOUND args|out|line), variables",
+                        "original_case": {"script": b_render(p[0], p[3], p[4]), "model": bm[k], "implementation": bi[k]},
+                        "wire": scase, "theorems": ["C03_step_bound", "C03_refines_bound", "C03_complete_bound", "C02_bind"], "seed": ck.seed,
+                        "replay_cmd": "printf '%s\\n' | .cache/cargo-target/release/c03   (and | ocaml/bin/c03_model)" % scase.replace("\t", "\\t")})
+        bstats["seconds"] = round(time.time() - t_b0, 1)
+        stats["bound_stream"] = bstats
         ck.coverage.update({
-            "evaluations": len(send),
+            "evaluations": len(send) + len(bsend),
+            "bound_stream_rule": "runner WITH binding (RunnerBind.run_bound): " + b_exhaustive.__doc__ + "; random programs of <= 10 lines whose "
+                                 "arguments are templates of 0-4 pieces (literal text, ${name}, \\${name}) or %{name} over 5 names, with command "
+                                 "results, error messages and initial variables drawn from a pool of hostile values (${y}, %{y}, quotes, #, "
+                                 "backslash, blanks); non-trivial = the log shows an invocation whose arguments differ from every written list",
+            "bound_stream_distinct_nontrivial": len(bnontriv),
             "distinct_nontrivial": len(nontriv),
             "rule": "every program of <= %d lines over 6 line shapes x 12 results per command (with / without on_error handlers "
                     "that continue, exit, crash), every %d-line program over 3 shapes x 6 results, one command on 1-3 lines with every "
@@ -239,7 +396,9 @@ def run(ck):
         ck.coverage.update({"evaluations": 0, "distinct_nontrivial": 0, "rule": "model did not build", "samples": []})
     ck.report_broken(found)
     ck.assumptions += [
-        "argument binding (expand_by_wrapper) is the identity on the generated arguments and on the on_error arguments: they contain no '$', '%' or backslash (C02 covers binding)",
+        "main stream: argument binding (expand_by_wrapper) is the identity on the generated arguments (no '$', '%' or backslash) and Runner.v is the model; "
+        "bound stream: RunnerBind.v binds with the Expansion.v model of expand_by_wrapper (C02) — proved to refine the same abstract machine with bound invocations "
+        "(C03_step_bound / C03_refines_bound) and to be Runner.v when the binder is the identity (C03_bound_conservative)",
         "commands are modelled as functions of (name, arguments, output variable, line, variables, command state, halt flag); commands that replace the command registry itself are covered through the abstract exists_cmd/cmd pair",
         "the text -> instruction step is the real parser on the Rust side and a direct construction on the model side (labels, output, command, arguments, 1-based line, source); pre-processor lines are modelled but not generated",
         "repl_mode = false (run_script / run_script_file); the REPL entry point is not covered",
